@@ -844,7 +844,7 @@ class Builder:
                 for a, lab in outs:
                     g.edge(a, tail.id, lab)
                 if outs:
-                    outer_exc.route(self, tail, None, "exc")
+                    outer_exc.route(self, tail, None, "reraise")
             return fin_cache["exc"]
 
         fin = fin_exc if has_fin else None
